@@ -6,6 +6,9 @@ int n_conn;
 mapping registry;
 
 void reg(string t, object o) { if (!registry) registry = ([ ]); registry[t] = o; }
+string create_script;
+void set_create_script(string s) { create_script = s; }
+string take_create_script() { string s; s = create_script; create_script = 0; return s; }
 object lookup(string t) { if (!registry) return 0; return registry[t]; }
 
 void create() { rec("MASTER create"); }
